@@ -156,6 +156,8 @@ type Harness struct {
 	Budget func(tier string) time.Duration
 	// Workers overrides the number of shards (0 = all cores).
 	Workers func(tier string) int
+	// ProcsPerWorker is GOMAXPROCS of each worker subprocess (default 1).
+	ProcsPerWorker int
 	// SingleProcess runs shards in-process (harness is goroutine-safe); otherwise subprocesses.
 	InProcess bool
 }
@@ -299,7 +301,7 @@ func runShard(h *Harness, tier string, i, n int, seed int64) *Report {
 	for o := range rep.outSet {
 		rep.Outcomes = append(rep.Outcomes, o)
 	}
-	rep.States = int64(len(rep.stateSet))
+	rep.States += int64(len(rep.stateSet))
 	return rep
 }
 
@@ -341,7 +343,11 @@ func parent(h *Harness, tier string, seed int64) int {
 			outf := filepath.Join(work, os.Getenv("VERIF_PART"), fmt.Sprintf("shard-%d.json", i))
 			os.Remove(outf)
 			cmd := exec.Command(self, "-tier", tier, "-shard", fmt.Sprintf("%d/%d", i, n), "-out", outf)
-			cmd.Env = append(os.Environ(), "VERIF_SEED="+strconv.FormatInt(seed, 10))
+			procs := 1
+			if h.ProcsPerWorker > 0 {
+				procs = h.ProcsPerWorker
+			}
+			cmd.Env = append(os.Environ(), "VERIF_SEED="+strconv.FormatInt(seed, 10), "GOMAXPROCS="+strconv.Itoa(procs))
 			logf, _ := os.Create(filepath.Join(work, os.Getenv("VERIF_PART"), fmt.Sprintf("shard-%d.log", i)))
 			cmd.Stdout, cmd.Stderr = logf, logf
 			err := cmd.Run()
@@ -489,6 +495,15 @@ func parent(h *Harness, tier string, seed int64) int {
 		return 1
 	}
 	return 0
+}
+
+// nontrivial: harnesses that enumerate distinct cases count the non-trivial ones themselves
+// (Report.Nontrivial); otherwise the number of distinct observed outcomes is used.
+func nontrivial(m *Report) int64 {
+	if m.Nontrivial > 0 {
+		return m.Nontrivial
+	}
+	return int64(len(m.outSet))
 }
 
 func maxi(a, b int64) int64 {
